@@ -1052,13 +1052,36 @@ class SSeq:
     def revcomp(self):
         return self.complement()[::-1]
 
-    def startswith(self, q):
-        q = SSeq.lift(q)
-        return bool(And(q.n <= self.n, self[: q.n].eq_formula(q)))
+    def _window(self, start, end):
+        if start is None and end is None:
+            return self
+        return self[slice(start, end)]
 
-    def endswith(self, q):
-        q = SSeq.lift(q)
-        return bool(And(q.n <= self.n, self[self.n - q.n:].eq_formula(q)))
+    def startswith(self, q, start=None, end=None):
+        w = self._window(start, end)
+        alts = []
+        for one in (q if isinstance(q, tuple) else (q,)):
+            one = SSeq.lift(one._d if isinstance(one, Seqlike) else one)
+            if one is None:
+                raise TypeError("startswith first arg must be str or a tuple of str")
+            alts.append(And(one.n <= w.n, w[: one.n].eq_formula(one)))
+        return bool(Or(alts))
+
+    def endswith(self, q, start=None, end=None):
+        w = self._window(start, end)
+        alts = []
+        for one in (q if isinstance(q, tuple) else (q,)):
+            one = SSeq.lift(one._d if isinstance(one, Seqlike) else one)
+            if one is None:
+                raise TypeError("endswith first arg must be str or a tuple of str")
+            alts.append(And(one.n <= w.n, w[w.n - one.n:].eq_formula(one)))
+        return bool(Or(alts))
+
+    def isupper(self):
+        raise Unsupported("isupper on a symbolic string")
+
+    def islower(self):
+        raise Unsupported("islower on a symbolic string")
 
     def find(self, q, start=0):
         q = SSeq.lift(q)
